@@ -20,6 +20,12 @@ RULE = (
     "wrapped; tagged: two ways hit the same tag in one cycle; histogram: samples in >= 3 buckets (or all buckets) "
     "and two ways in one cycle; disabled: at least one caller ran"
 )
+RULE += (
+    "  In one case of three an additional user method calls way 0 as well (two callers of one exclusive method of the "
+    "metric): with metrics enabled exactly one of the requesters of that pair is served per cycle and every executed, "
+    "enabled call is counted; with metrics disabled the methods are empty and nobody waits."
+)
+
 ASSUMPTIONS = [
     "amaranth.sim.Simulator is the trusted execution model",
     "only tags that belong to the tag set are passed to TaggedCounter.incr (other values are undocumented)",
